@@ -306,6 +306,29 @@ def run(ctx):
             if any(getattr(m, 'ids', [0])[0] // 1000 in (205, 1) for m in msgs):
                 ctx.count('hostile_payload_messages')
             run_stream(ctx, dec, msgs, stream, used, dict(origin='mandatory', hostile=bool(msgs)), probe=True)
+        # the smallest legal messages (no descriptor at all / one descriptor, 42-48 octets), in particular as the LAST
+        # thing in the stream with nothing behind them
+        from mon.gen import cases as _cases
+        B33, D33 = _cases.tables(33)
+        tiny = []
+        for ti, (ids, ed) in enumerate((([], 4), ([], 3), ([], 2), ([1001], 3), ([2001], 4), ([1001], 2))):
+            try:
+                tiny.append(R.build_message(ids, B33, D33, R.Policy(rng), 1, False, ed, dict(update_sequence_number=ti, data_category=ti)))
+            except R.Unsupported:
+                pass
+        k += 1
+        normal = streams.make_message(rng, k)
+        layouts = [[t] for t in tiny] + [[normal, t] for t in tiny] + [[tiny[i], tiny[(i + 1) % len(tiny)]] for i in range(len(tiny))]
+        for li, msgs in enumerate(layouts):
+            if not ctx.mine(li):
+                continue
+            for tail in (b'', b'\r\r\n', b'BUF'):
+                stream = b'\r\r\n'.join(m.bytes for m in msgs) + tail
+                ctx.count('tiny_message_streams')
+                run_stream(ctx, dec, msgs, stream, [tail], dict(origin='tiny-messages', hostile=False))
+            if li % 5 == 0:
+                stream = b''.join(m.bytes for m in msgs)
+                split_files(ctx, msgs, stream, scratch, 't%d' % li, dict(origin='tiny-messages', stream_hex=stream.hex()))
         for j in range(4 if ctx.quick else 40):
             k += 1
             inner = streams.small_message(rng, k, data_category=3)
